@@ -1157,6 +1157,11 @@ where
         {
             let sc = self.size_ctl.load(Ordering::SeqCst);
             if sc >= 0
+                // NOTE: `size_ctl` is read _after_ the check that `table` is still being
+                // transferred, so by now that resize may have finished and the _next_ one may
+                // have started. `sc` then carries the stamp of a longer table; joining that resize
+                // while transferring `table` would corrupt its count of active resizers.
+                || (sc >> RESIZE_STAMP_SHIFT) != (rs >> RESIZE_STAMP_SHIFT)
                 || sc == rs + MAX_RESIZERS
                 || sc == rs + 1
                 || self.transfer_index.load(Ordering::SeqCst) <= 0
